@@ -75,6 +75,7 @@ func (e *env) opCloseEnd(j int, why string) {
 	others := c.v.NumOfRef() > 0
 	e.logf("closeEnd snapshot #%d (%s): between the halves %d commits, %d obsolete-file passes, %d cache cleanups, %d snapshots of that version; version replaced=%v, held by others=%v",
 		c.h.id, why, c.commits, c.passes, c.cleanups, c.retained, replaced, others)
+	e.closes++
 	c.second()
 	// the rest of Close (the readers go back to the cache); Close releases the version once more, hence the Retain
 	c.v.Retain()
